@@ -70,6 +70,10 @@ def build(case):
         zs = [3 + 2 * i for i in range(nz)]
     if case.get("z_shuffled"):
         random.Random(case["seed"] + 9).shuffle(zs)   # non-monotonic order
+    if case.get("x_desc"):
+        xs = xs[::-1]           # a coordinate swept downwards
+    if case.get("z_desc"):
+        zs = zs[::-1]
     coords = {"x": xs, "z": zs}
     dims = ["z", "x"]
     sizes = {"x": nx, "z": nz}
@@ -217,7 +221,8 @@ def run_case(case):
         elif kind == "heatmap":
             sub = ds.isel(z=0)
             hopts = {k: v for k, v in opts.items()
-                     if k in ("colormap", "colorbar", "row", "col")}
+                     if k in ("colormap", "colorbar", "row", "col",
+                              "colormap_reverse")}
             # heat map of y over (x, r) needs a second plain dimension
             with under_test(kind):
                 fig = x.heatmap(ds if "row" not in hopts and
@@ -466,14 +471,35 @@ def check_heat(case, ds, fig, hopts):
         require(np.array_equal(got, wantm, equal_nan=True), "heatmap-data",
                 lambda: f"mesh array {got.tolist()} vs z on (y, x) "
                         f"{wantm.tolist()}")
+        if case.get("colormap") is not None:
+            # the mesh is coloured with the chosen map (reversed if asked)
+            want_cm = named_cmap(case["colormap"],
+                                 case.get("colormap_reverse"))
+            for v_ in (0.0, 0.2, 0.7, 1.0):
+                require(np.allclose(qm.get_cmap()(v_), want_cm(v_),
+                                    atol=1e-9), "heatmap-colour-map",
+                        f"the mesh maps {v_} to "
+                        f"{tuple(round(c, 4) for c in qm.get_cmap()(v_))}, "
+                        f"the chosen map {case['colormap']}"
+                        f"{' reversed' if case.get('colormap_reverse') else ''}"
+                        f" gives {tuple(round(c, 4) for c in want_cm(v_))}")
         coords = np.asarray(qm.get_coordinates(), float)
         xs = np.asarray(sub["x"].values, float)
         ys = np.asarray(sub["z"].values, float)
         ex, ey = coords[0, :, 0], coords[:, 0, 1]
         require(len(ex) == len(xs) + 1 and len(ey) == len(ys) + 1,
                 "mesh-shape", f"{coords.shape}")
-        require(np.all(np.diff(ex) > 0) and np.all(np.diff(ey) > 0),
-                "mesh-orientation", "mesh edges not increasing")
+        for edges_, cs_, nm in ((ex, xs, "x"), (ey, ys, "y")):
+            # edges run the way the coordinate does and enclose its values
+            up = cs_[-1] >= cs_[0]
+            d_ = np.diff(edges_)
+            require(np.all(d_ > 0) if up else np.all(d_ < 0),
+                    "mesh-orientation",
+                    f"{nm} edges {edges_.tolist()} for coordinates "
+                    f"{cs_.tolist()}")
+            # (for non-uniform coordinates the package shifts by half the
+            # MEAN spacing, a stated heuristic: only uniform grids are
+            # required to be centred, below)
         for edges_, cs_, nm in ((ex, xs, "x"), (ey, ys, "y")):
             d = np.diff(cs_)
             if len(cs_) > 1 and np.allclose(d, d[0]):
@@ -513,6 +539,9 @@ def strategy(draw):
         case["nan_series"] = None
         case["colormap"] = draw(st.sampled_from([None, "viridis"]))
         case["colorbar"] = draw(st.sampled_from([None, False, True]))
+        case["colormap_reverse"] = draw(st.sampled_from([None, None, True]))
+        case["x_desc"] = draw(st.sampled_from([False, False, True]))
+        case["z_desc"] = draw(st.sampled_from([False, False, True]))
         return case
     if kind == "histogram":
         case["nan_series"] = None
